@@ -9,6 +9,7 @@
 package main
 
 import (
+	"bytes"
 	"encoding/binary"
 	"encoding/json"
 	"fmt"
@@ -48,6 +49,7 @@ type Obs struct {
 	FdsGC   int       `json:"fds_gc"`
 	Settled []int     `json:"settled,omitempty"`
 	Events  int64     `json:"events"` // events the service sent to its channel during the history
+	Lists   [][]hx.B  `json:"lists,omitempty"` // ssh-simulator: string lists decoded from env / exec payloads
 }
 
 func runChild(sp Spec, dir string, k int) (ChildResult, string) {
@@ -453,6 +455,21 @@ func genInput(r *hx.Rand, svc string, tier string) Input {
 		in.V6 = r.Chance(1, 5)
 		in.Conn.Dial = r.PickStr([]string{"", "", "knock", "knock", "hold"})
 	}
+	// a peer that stops reading (and keeps the connection open): every reply beyond what it
+	// still takes waits out the write deadline of server.TimeoutConn
+	stalled := false
+	// (ftp: only scripts without data commands - a peer that reads nothing never learns the
+	// passive port, and a data command would wait out the 30 s passive-socket timeout)
+	if in.Proto == "tcp" && svc != "ntp" && !(svc == "ftp" && (in.Conn.Dial == "knock" || in.Kind != "dialogue")) && r.Chance(1, 5) {
+		room := r.PickInt([]int{0, 0, 1, 10, 30, 120})
+		if svc == "ftp" || svc == "smtp" {
+			room = 0 // reply lengths are not modelled: the peer reads nothing at all
+			in.Conn.Dial = ""
+		}
+		in.Conn.Room = &room
+		in.Conn.End = "silent"
+		stalled = true
+	}
 	// history length
 	big := []int{1, 1, 2, 3, 5, 8, 20, 50}
 	if tier == "thorough" {
@@ -462,8 +479,18 @@ func genInput(r *hx.Rand, svc string, tier string) Input {
 	if in.Conn.End == "silent" && in.N > 3 {
 		in.N = r.Range(1, 3)
 	}
+	if stalled {
+		in.N = r.Range(1, 2)
+	}
+	if svc == "ftp" && in.V6 && in.N > 5 {
+		// a PASV on an IPv6 local address panics and leaves its socket to a 30 s timer: the
+		// whole history has to fit well inside that time for the count to be exact
+		in.N = r.Range(1, 5)
+	}
 	return in
 }
+
+func room(n int) *int { return &n }
 
 func str(segs ...string) []hx.B {
 	var o []hx.B
@@ -512,6 +539,15 @@ func corpus() []Input {
 		{Svc: "adb", Proto: "tcp", N: 2, Kind: "corpus", Conn: Conn{End: "silent", Segs: str(cnxn)}},
 		{Svc: "adb", Proto: "udp", N: 2, Kind: "corpus", Conn: Conn{Segs: str("CNXNshort")}},
 		{Svc: "echo", Proto: "tcp", N: 3, Kind: "corpus", Conn: Conn{End: "silent", Segs: str("a", "b")}},
+		// peers that stop reading
+		{Svc: "echo", Proto: "tcp", N: 2, Kind: "corpus", Conn: Conn{End: "silent", Room: room(0), Segs: str("hello", "world")}},
+		{Svc: "echo", Proto: "tcp", N: 1, Kind: "corpus", Conn: Conn{End: "silent", Room: room(7), Segs: str("hello", "world")}},
+		{Svc: "dummy", Proto: "tcp", N: 1, Kind: "corpus", Conn: Conn{End: "silent", Room: room(0), Segs: str("a\nb\nc\n")}},
+		{Svc: "adb", Proto: "tcp", N: 1, Kind: "corpus", Conn: Conn{End: "silent", Room: room(100), Segs: str(cnxn, string(adbPacket("OPEN", 1, 0, []byte("shell:\x00"))))}},
+		{Svc: "memcached", Proto: "tcp", N: 1, Kind: "corpus", Conn: Conn{End: "silent", Room: room(10), Segs: str("stats\r\nget k\r\n")}},
+		{Svc: "tftp", Proto: "tcp", N: 1, Kind: "corpus", Conn: Conn{End: "silent", Room: room(0), Segs: str("\x00\x01f\x00octet\x00")}},
+		{Svc: "ftp", Proto: "tcp", N: 2, Kind: "corpus", Conn: Conn{End: "silent", Room: room(0), Segs: with("NOOP\r\n", "PASV\r\n")}},
+		{Svc: "smtp", Proto: "tcp", N: 2, Kind: "corpus", Conn: Conn{End: "silent", Room: room(0), Segs: str("EHLO x\r\n", "NOOP\r\n")}},
 	}
 }
 
@@ -577,15 +613,19 @@ func coqCase(id int, in Input, ob Obs) string {
 	}
 	var os []string
 	for _, c := range ob.Conns {
-		os = append(os, fmt.Sprintf("mkObs %d %d %d %d %d %d %d %s %s %s", outCode[c.Outcome], c.Reads, c.ZeroReads, c.Timeouts, c.EOFs, c.Writes, c.WBytes,
+		os = append(os, fmt.Sprintf("mkObs %d %d %d %d %d %d %d %d %s %s %s", outCode[c.Outcome], c.Reads, c.ZeroReads, c.Timeouts, c.EOFs, c.Writes, c.WBytes, c.WTimeouts,
 			hx.CoqZ(int64(c.Gor)), hx.CoqZ(int64(c.Lis)), hx.CoqZ(int64(c.Fds))))
 	}
 	settled := "(@None (Z * Z * Z))"
 	if len(ob.Settled) == 3 {
 		settled = fmt.Sprintf("(Some (%s, %s, %s))", hx.CoqZ(int64(ob.Settled[0])), hx.CoqZ(int64(ob.Settled[1])), hx.CoqZ(int64(ob.Settled[2])))
 	}
-	return fmt.Sprintf("mkCase %s (mkScn %s %s %s %s) %s %s %s %s (%s, %s, %s) %s", hx.CoqN(uint64(id)), svcCoq[in.Svc], hx.CoqBool(in.Proto == "udp"), hx.CoqBool(in.V6), dialCoq[in.Conn.Dial],
-		hx.CoqList(segs, "bytes"), term, hx.CoqN(uint64(in.N)), hx.CoqList(os, "obs"),
+	room := "(@None N)"
+	if in.Conn.Room != nil && in.Proto != "udp" {
+		room = "(Some " + hx.CoqN(uint64(*in.Conn.Room)) + ")"
+	}
+	return fmt.Sprintf("mkCase %s (mkScn %s %s %s %s) %s %s %s %s %s (%s, %s, %s) %s", hx.CoqN(uint64(id)), svcCoq[in.Svc], hx.CoqBool(in.Proto == "udp"), hx.CoqBool(in.V6), dialCoq[in.Conn.Dial],
+		hx.CoqList(segs, "bytes"), term, room, hx.CoqN(uint64(in.N)), hx.CoqList(os, "obs"),
 		hx.CoqZ(int64(ob.GorGC)), hx.CoqZ(int64(ob.LisGC)), hx.CoqZ(int64(ob.FdsGC)), settled)
 }
 
@@ -605,11 +645,7 @@ func main() {
 		}
 		ins = []Input{in}
 	} else {
-		for _, in := range corpus() {
-			if !in.Slow || o.Tier == "thorough" {
-				ins = append(ins, in)
-			}
-		}
+		ins = append(ins, corpus()...)
 		per := 22
 		switch o.Tier {
 		case "thorough":
@@ -666,6 +702,63 @@ func main() {
 			}
 		}
 	}
+	if o.Only == "" {
+		// ssh channel requests: every truncation point of well-formed payloads, stray bytes after
+		// them, odd lengths, random payloads - for the request types whose payload the simulator
+		// decodes in a loop (env, exec) and for the others
+		sstr := func(xs ...string) []byte {
+			var b []byte
+			for _, x := range xs {
+				b = append(b, be32(uint32(len(x)))...)
+				b = append(b, x...)
+			}
+			return b
+		}
+		prefixes := func(b []byte) []hx.B {
+			var o []hx.B
+			for i := 0; i <= len(b); i++ {
+				o = append(o, hx.B(append([]byte{}, b[:i]...)))
+			}
+			return o
+		}
+		for _, req := range []string{"env", "exec"} {
+			stray := []hx.B{}
+			for _, base := range [][]byte{nil, sstr("A"), sstr("LANG", "C")} {
+				for k := 1; k <= 3; k++ {
+					stray = append(stray, hx.B(append(append([]byte{}, base...), make([]byte, k)...)))
+				}
+			}
+			stray = append(stray, hx.B(sstr("")), hx.B(cat(be32(5), []byte("ab"))), hx.B(cat(be32(0xffffffff), []byte("ab"))), hx.B(cat(sstr("x"), be32(1<<31))))
+			for i := 0; i < 6; i++ {
+				stray = append(stray, hx.B(r.Bytes(r.Range(0, 12))))
+			}
+			for _, pls := range [][]hx.B{prefixes(sstr("LANG", "C")), prefixes(sstr("", "ls -la")), stray} {
+				ins = append(ins, Input{Svc: "ssh-simulator", Proto: "tcp", N: 1, Kind: "sweep", Sweep: &SweepIn{Svc: "ssh-simulator", Scenario: 3, N: 1, Req: req, Payloads: pls}})
+			}
+		}
+		for _, rp := range []struct {
+			req string
+			pl  []byte
+		}{
+			{"subsystem", sstr("sftp")},
+			{"tcpip-forward", cat(sstr("0.0.0.0"), be32(8080))},
+			{"pty-req", cat(sstr("xterm"), be32(80), be32(24), be32(0), be32(0), sstr(""))},
+			{"window-change", cat(be32(80), be32(24), be32(0), be32(0))},
+			{"x11-req", cat([]byte{0}, sstr("MIT-MAGIC-COOKIE-1"), sstr("00"), be32(0))},
+			{"no-such-type", sstr("x")},
+		} {
+			req, pl := rp.req, rp.pl
+			ins = append(ins, Input{Svc: "ssh-simulator", Proto: "tcp", N: 1, Kind: "sweep", Sweep: &SweepIn{Svc: "ssh-simulator", Scenario: 3, N: 1, Req: req, Payloads: prefixes(pl)}})
+		}
+		// the ftp data channel in every mode; the scenarios that wait out the 30 s passive-socket
+		// timeout sleep most of the time and run beside the worker pool
+		for _, sv := range []string{"ftp-data-plain", "ftp-data-tls"} {
+			for sc := 0; sc < ftpDataScenarios; sc++ {
+				ins = append(ins, Input{Svc: sv, Proto: "tcp", N: 1, Kind: "sweep", Slow: ftpDataSlow(sc, sv == "ftp-data-tls"),
+					Sweep: &SweepIn{Svc: sv, Scenario: sc, N: 1}})
+			}
+		}
+	}
 	deadline, wait := 60, 700
 	if o.Tier == "thorough" {
 		deadline, wait = 100, 2000
@@ -692,22 +785,54 @@ func main() {
 	results := make([]result, len(ins))
 	var wg sync.WaitGroup
 	sem := make(chan struct{}, 6)
+	// cases that sleep through a 30 s timer first, beside the pool
+	order := make([]int, 0, len(ins))
 	for i := range ins {
+		if ins[i].Slow || ins[i].Real {
+			order = append(order, i)
+		}
+	}
+	for i := range ins {
+		if !(ins[i].Slow || ins[i].Real) {
+			order = append(order, i)
+		}
+	}
+	for _, i := range order {
 		wg.Add(1)
-		sem <- struct{}{}
-		go func(i int) {
+		pooled := !(ins[i].Slow || ins[i].Real)
+		if pooled {
+			sem <- struct{}{}
+		}
+		go func(i int, pooled bool) {
 			defer wg.Done()
-			defer func() { <-sem }()
+			if pooled {
+				defer func() { <-sem }()
+			}
 			in := ins[i]
 			sp := Spec{Svc: in.Svc, Proto: in.Proto, V6: in.V6, Conn: in.Conn, N: in.N, DeadlineMs: deadline, WaitMs: wait, Perturb: perturb, Sweep: in.Sweep}
 			if in.Real {
 				sp.DeadlineMs, sp.WaitMs = realDeadlineMs, 3*realDeadlineMs
 			}
 			sp.WaitMs += in.Waits * (passiveMs + 2000)
+			if in.Conn.Room != nil {
+				// one write deadline per reply at most: replies <= lines + segments (+ banner ...)
+				k := 6 + len(in.Conn.Segs)
+				for _, sg := range in.Conn.Segs {
+					k += bytes.Count(sg, []byte("\n"))
+				}
+				sp.WaitMs += k * 2 * sp.DeadlineMs
+			}
 			sp.SettleMs = passiveMs + 1500
+			if in.Sweep != nil && in.Slow {
+				sp.WaitMs += passiveMs + 3000
+			}
+			t0 := time.Now()
 			res, crash := runChild(sp, scratch, i)
+			if os.Getenv("C09_TIMING") != "" && time.Since(t0) > 2*time.Second {
+				fmt.Fprintf(os.Stderr, "slow child %d %s/%s n=%d sweep=%+v: %v\n", i, in.Svc, in.Proto, in.N, in.Sweep, time.Since(t0).Round(time.Millisecond))
+			}
 			results[i] = result{res, crash}
-		}(i)
+		}(i, pooled)
 	}
 	wg.Wait()
 	dist := map[string]int{}
@@ -729,8 +854,27 @@ func main() {
 				os = append(os, fmt.Sprintf("mkW %d %s %s %s", outCode[c.Outcome], hx.CoqZ(int64(c.Gor)), hx.CoqZ(int64(c.Lis)), hx.CoqZ(int64(c.Fds))))
 			}
 			id := len(wcases)
-			coq := fmt.Sprintf("mkSweep %s %d%%N %d%%N %s %s %s", hx.CoqN(uint64(id)), sweepSvcCode[in.Sweep.Svc], in.Sweep.Scenario, hx.CoqBool(in.Sweep.Silent), hx.CoqN(uint64(in.Sweep.N)), hx.CoqList(os, "wobs"))
-			wcases = append(wcases, hx.Case{ID: id, Kind: "sweep/" + in.Sweep.Svc, Input: in, Obs: Obs{Conns: res.Conns, Events: res.Events}, Crash: crash, Coq: coq})
+			reqCode := map[string]int{"": 0, "env": 1, "exec": 2}[in.Sweep.Req]
+			if in.Sweep.Req != "" && reqCode == 0 {
+				reqCode = 3
+			}
+			var pls, lists []string
+			for _, pl := range in.Sweep.Payloads {
+				pls = append(pls, hx.CoqBytes(pl))
+			}
+			for _, l := range res.Lists {
+				var xs []string
+				for _, x := range l {
+					xs = append(xs, hx.CoqBytes(x))
+				}
+				lists = append(lists, hx.CoqList(xs, "bytes"))
+			}
+			coq := fmt.Sprintf("mkSweep %s %d%%N %d%%N %s %s %s %d%%N %s %s", hx.CoqN(uint64(id)), sweepSvcCode[in.Sweep.Svc], in.Sweep.Scenario, hx.CoqBool(in.Sweep.Silent), hx.CoqN(uint64(in.Sweep.N)), hx.CoqList(os, "wobs"),
+				reqCode, hx.CoqList(pls, "bytes"), hx.CoqList(lists, "(list bytes)"))
+			if in.Sweep.Req != "" {
+				distW["ssh-request:"+in.Sweep.Req] += len(in.Sweep.Payloads)
+			}
+			wcases = append(wcases, hx.Case{ID: id, Kind: "sweep/" + in.Sweep.Svc, Input: in, Obs: Obs{Conns: res.Conns, Events: res.Events, Lists: res.Lists}, Crash: crash, Coq: coq})
 			continue
 		}
 		if crash == "" && res.Err != "" {
@@ -739,6 +883,9 @@ func main() {
 		ob := Obs{Conns: res.Conns, GorGC: res.GorGC, LisGC: res.LisGC, FdsGC: res.FdsGC, Settled: res.Settled, Events: res.Events}
 		if in.Slow {
 			dist["waits-out-a-passive-socket-timeout"]++
+		}
+		if in.Conn.Room != nil {
+			dist["peer-stops-reading"]++
 		}
 		dist["svc:"+in.Svc]++
 		dist["proto:"+in.Proto]++
